@@ -3144,7 +3144,9 @@ pub fn load_state(server: &mut Server, mut client: OptionalClient, path: &str) {
             gatherer: DefaultGatherer::default(),
             path: path.to_owned(),
         }),
-        Timeout::None,
+        // like every other worker verb: a worker that does not answer within
+        // the worker timeout makes the request fail, it does not hang for ever
+        Timeout::Default,
     );
 
     let mut buffer = Buffer::with_capacity(200000);
@@ -3252,7 +3254,7 @@ impl GatheringTask for LoadStateTask {
         self: Box<Self>,
         server: &mut Server,
         client: &mut OptionalClient,
-        _timed_out: bool,
+        timed_out: bool,
     ) {
         let DefaultGatherer {
             ok,
@@ -3260,26 +3262,24 @@ impl GatheringTask for LoadStateTask {
             expected_responses,
             ..
         } = self.gatherer;
-        // PRECONDITION: `load_state` scatters with `Timeout::None`, so the
-        // task is only released once every worker has answered — never on a
-        // timeout. The ok/err tally must therefore cover the full expected
-        // fan-out.
+        // PRECONDITION: the task is released once every worker has answered,
+        // or when the worker timeout has passed.
         debug_assert!(
-            ok + errors >= expected_responses,
-            "LoadStateTask::on_finish: every expected worker must have answered (no timeout path)"
+            timed_out || ok + errors >= expected_responses,
+            "LoadStateTask::on_finish: every expected worker must have answered unless timed out"
         );
         server.update_counts();
-        let result = if errors == 0 {
+        let result = if errors == 0 && !timed_out {
             AuditResult::Ok
         } else {
             AuditResult::Err
         };
-        // INVARIANT: the audit result matches the error tally — an `ok:N
-        // errors:0` line must be tagged Ok, any error tagged Err.
+        // INVARIANT: the audit result matches the verdict — an `ok:N
+        // errors:0` line answered in time is tagged Ok, anything else Err.
         debug_assert_eq!(
             matches!(result, AuditResult::Ok),
-            errors == 0,
-            "LoadStateTask audit result must agree with the worker error tally"
+            errors == 0 && !timed_out,
+            "LoadStateTask audit result must agree with the worker error tally and the timeout"
         );
         if let Some(client_ref) = client.as_deref() {
             let (verb, counter) = audit_verb!("state_loaded");
@@ -3294,14 +3294,21 @@ impl GatheringTask for LoadStateTask {
                 AuditExtras::default(),
             );
         }
-        if errors == 0 {
+        if errors == 0 && !timed_out {
             client.finish_ok(format!(
                 "Successfully loaded state from path {}, {} ok messages, {} errors",
                 self.path, ok, errors
             ));
             return;
         }
-        client.finish_failure(format!("loading state: {ok} ok messages, {errors} errors"));
+        client.finish_failure(format!(
+            "loading state: {ok} ok messages, {errors} errors{}",
+            if timed_out {
+                ", some workers did not answer within the worker timeout"
+            } else {
+                ""
+            }
+        ));
     }
 }
 
